@@ -164,10 +164,10 @@ def qp_convex_spec(draw, max_n=6, max_m=3):
     Axf = (np.array(spec["A"]).reshape(m, n) @ np.array(xf)).tolist() if m else []
     spec["b"] = [0.0] * m
     cl, cu = draw(row_bounds(m, kinds=("eq0", "eqnz", "lower", "upper", "ranged"), center=Axf))
-    # eq0 rows: make them hold at xf through b
+    # equality rows: make them hold at xf through b (A xf - b = rhs)
     for i in range(m):
-        if cl[i] == 0.0 and cu[i] == 0.0:
-            spec["b"][i] = Axf[i]
+        if cl[i] == cu[i]:
+            spec["b"][i] = Axf[i] - cl[i]
     spec["cl"], spec["cu"] = cl, cu
     spec["xf"] = xf
     spec["fmt"] = draw(FMT)
@@ -486,3 +486,35 @@ def any_spec(draw, families=("nlp", "qp", "degenerate"), max_n=5, max_m=3):
     else:
         raise ValueError(fam)
     return s
+
+
+@st.composite
+def banded_qp_spec(draw, nmin=30, nmax=200):
+    """Large strictly convex QP: tridiagonal diagonally dominant Q, banded full-row-rank A."""
+    n = draw(st.integers(nmin, nmax))
+    m = draw(st.integers(0, n // 3))
+    d = [1.0 + draw(st.integers(0, 16)) / 8.0 for _ in range(n)]
+    e = [draw(st.integers(-3, 3)) / 8.0 for _ in range(n - 1)]
+    Q = np.diag(d) + np.diag(e, 1) + np.diag(e, -1)
+    q = [draw(st.integers(-16, 16)) / 8.0 for _ in range(n)]
+    A = np.zeros((m, n))
+    for i in range(m):
+        k = 3 * i
+        A[i, k] = draw(st.sampled_from([-2.0, -1.0, 1.0, 2.0]))
+        if k + 1 < n:
+            A[i, k + 1] = draw(st.integers(-8, 8)) / 8.0
+        if k + 2 < n:
+            A[i, k + 2] = draw(st.integers(-8, 8)) / 8.0
+    xf = [draw(st.integers(-8, 8)) / 8.0 for _ in range(n)]
+    spec = {"n": n, "m": m, "Q": Q.tolist(), "q": q, "A": A.tolist(), "family": "banded"}
+    spec["lb"], spec["ub"] = draw(var_bounds(n, kinds=("free", "free", "lower", "upper", "boxed"), center=xf))
+    Axf = (A @ np.array(xf)).tolist() if m else []
+    cl, cu = draw(row_bounds(m, center=Axf))
+    spec["b"] = [0.0] * m
+    for i in range(m):
+        if cl[i] == cu[i]:
+            spec["b"][i] = Axf[i] - cl[i]
+    spec["cl"], spec["cu"] = cl, cu
+    spec["xf"] = xf
+    spec["fmt"] = draw(FMT)
+    return spec
